@@ -96,6 +96,7 @@ def run_cases(prop, P, cases, tag):
     findings = []
     byname = {c["name"]: c for c in cases}
     stats = {"harness_lines": 0}
+    all_xs = []
     for mode, prefix, checks in P["runs"]:
         big = [c for c in cases if c.get("nomodel")]
         if big:
@@ -105,6 +106,7 @@ def run_cases(prop, P, cases, tag):
                 if verdict != "ok" and (chk.split(":")[0] in P.get("x_checks", []) or chk in ("panic", "abort")):
                     findings.append({"case": name.split(":")[0], "kind": "impl", "check": chk, "detail": detail})
         outs, xs = core.run_harness(mode, [c for c in cases if not c.get("nomodel")], f"{prop}{tag}")
+        all_xs += xs
         for name, chk, verdict, detail in xs:
             base = name.split(":")[0]
             if verdict != "ok" and (chk.split(":")[0] in P.get("x_checks", []) or chk in ("panic", "abort")):
@@ -142,7 +144,7 @@ def run_cases(prop, P, cases, tag):
                                 findings.append({"case": name.split(":")[0], "kind": "spec", "check": "oracle", "detail": err[:500]})
             stats["oracle_evaluations"] = stats.get("oracle_evaluations", 0) + n_or
         if P.get("post"):
-            f2, st2 = P["post"](cases, xs)
+            f2, st2 = P["post"](cases, all_xs)
             findings += f2
             stats.update(st2)
     return findings, stats
